@@ -60,6 +60,10 @@ func NewExprCondition(expression string) (Condition, error) {
 	// 注入 StreamSQL 内置函数，使 WHERE/HAVING/OVER-WHEN 等条件可调用 to_seconds/now/abs 等
 	options = append(options, functions.GetExprBridge().RegisterStreamSQLFunctionsToExpr()...)
 
+	// SQL spells negation NOT; the expression engine only knows `not` / `!`, and would take an
+	// upper-case NOT( for a call of an undefined variable (a run-time error: always false).
+	expression = rewriteSQLNot(expression)
+
 	program, err := expr.Compile(expression, options...)
 	if err != nil {
 		return nil, err
@@ -71,6 +75,46 @@ func NewExprCondition(expression string) (Condition, error) {
 		ec.fast = fc
 	}
 	return ec, nil
+}
+
+// rewriteSQLNot replaces the keyword NOT in front of a parenthesis by `!`, outside string literals.
+// NOT LIKE and IS NOT NULL are rewritten before the predicate gets here and are left alone.
+func rewriteSQLNot(expression string) string {
+	var b strings.Builder
+	var quote byte
+	for i := 0; i < len(expression); i++ {
+		c := expression[i]
+		if quote != 0 {
+			if c == quote {
+				quote = 0
+			}
+			b.WriteByte(c)
+			continue
+		}
+		if c == '\'' || c == '"' || c == '`' {
+			quote = c
+			b.WriteByte(c)
+			continue
+		}
+		if (c == 'N' || c == 'n') && i+3 <= len(expression) && strings.EqualFold(expression[i:i+3], "NOT") &&
+			(i == 0 || !isIdentByte(expression[i-1])) {
+			j := i + 3
+			for j < len(expression) && (expression[j] == ' ' || expression[j] == '\t') {
+				j++
+			}
+			if j < len(expression) && expression[j] == '(' {
+				b.WriteByte('!')
+				i = j - 1
+				continue
+			}
+		}
+		b.WriteByte(c)
+	}
+	return b.String()
+}
+
+func isIdentByte(c byte) bool {
+	return c == '_' || c >= '0' && c <= '9' || c >= 'a' && c <= 'z' || c >= 'A' && c <= 'Z'
 }
 
 func (ec *ExprCondition) Evaluate(env any) bool {
